@@ -1,4 +1,5 @@
 import Logrange.Proofs.PipeRep
+import Logrange.Proofs.PipeSpecRep
 import Logrange.Props.C10
 /-!
 # C10 — the pipe LTS with the repairs of F79 (catch-up at start, first descriptor persisted) and F10 (publication in storage order)
@@ -130,6 +131,27 @@ theorem publication_in_storage_order (rc : RCfg) (hw : rc.writeLock = true) (n :
     st.pend.Pairwise (fun a b => a.src ≠ b.src) :=
   runR_pubinv cfgNow rc hw _ ls (ginv_init cfgNow n l p f o) (pubinv_init n l p f o)
 
+/-- the monitor is a ghost of the repaired LTS too -/
+theorem monitor_is_ghost_rep (rc : RCfg) (st : State) (m : Mon) (ls : List Label) :
+    (runMR cfgNow rc (st, m) ls).1 = runR cfgNow rc st ls :=
+  runMR_fst cfgNow rc (st, m) ls
+
+/-- **The specification for every clean schedule, with any combination of the repairs** (`pipe_spec` transferred to
+`stepR`; same ghost monitor): in a quiescent state of a running service with the pipe alive, a listening source whose
+schedule was clean has in the pipe partition exactly the events written to it after the pipe's creation for which the filter
+is true — once, in stored order, provenance appended. Proof: the invariants of `pipe_spec` (`GInv`, `NS`, `PInv`, `MInv`)
+plus "a stopped service has nothing queued or unpublished" are kept by `stepR` (`Proofs/PipeSpecRep.stepR_allinv`): the
+write lock only removes steps, `resaveAll` rebuilds the file clause from the descriptor clause, and after a clean stop the
+catch-up finds `LastKnwnPos` already at the end. -/
+theorem pipe_spec_rep (rc : RCfg) (n : Nat) (l : Nat → Bool) (p : Nat → Bytes) (f : Ev → Bool) (o : Bool) (ls : List Label)
+    (s : Nat) :
+    let r := runMR cfgNow rc (init n l p f o, mon0) ls
+    let st := r.1
+    quiescent st = true → st.closed = false → st.down = false → st.pipe = .live → s < st.n →
+    (st.srcs s).listens = true → r.2.clean s = true →
+    proj s st.dest = specProj st s :=
+  spec_of_clean_rep cfgNow rc (by decide) (by decide) (by decide) (by decide) n l p f o ls s
+
 /-! ### the former counterexample runs under the repairs (kernel-evaluated) -/
 
 /-- the schedule of `cex_restart_strands_data` with the repairs: right after the restart a worker is charged for the source
@@ -166,6 +188,15 @@ queued batch is never copied. Same run as `cex_notification_lost_at_shutdown`, h
 theorem cex_queued_first_notification_still_lost :
     let st := runR cfgNow repaired (init 1 (fun _ => true) (fun _ => prov0) (fun _ => true) false)
       ([.create, .write 0 [evA], .enqueue 0, .shutdown, .halt, .restart, .write 0 [evB], .enqueue 0, .notify] ++ copyCycle)
+    quiescent st = true ∧ proj 0 st.dest = [addProv prov0 evB] ∧ (specProj st 0).length = 2 := by
+  decide
+
+/-- … the same with the event not even published when the service stops (a write overlapping the stop: stored and
+acknowledged, `onWriteEvent` reaches nobody). This is the schedule of the harness' witness
+`stop-first-notification-unpublished` (open finding F-C10-901), which the real server reproduces. -/
+theorem cex_unpublished_first_notification_still_lost :
+    let st := runR cfgNow repaired (init 1 (fun _ => true) (fun _ => prov0) (fun _ => true) false)
+      ([.create, .write 0 [evA], .shutdown, .halt, .restart, .write 0 [evB], .enqueue 0, .notify] ++ copyCycle)
     quiescent st = true ∧ proj 0 st.dest = [addProv prov0 evB] ∧ (specProj st 0).length = 2 := by
   decide
 
